@@ -947,7 +947,10 @@ def scope_var_limit(prog, chk):
                 if lp is not None and _attrs_loop_element(body, lp[0]) == l and body.dominates(eb, lp[0]):
                     guards.append(lp)
             name = body.local_name(l)
-            if not guards and (R.place_reads(body, (".var_limit",)) or any(R.place_reads(cb_, (".var_limit",)) for cb_ in prog.bodies.values() if cb_.root == body.id)):
+            # (a test that sits before the evaluation cannot be the one that sees the evaluated values)
+            later = [x for (x, i, node) in R.place_reads(body, (".var_limit",)) if x != eb and body.dominates(eb, x)]
+            in_closures = any(R.place_reads(cb_, (".var_limit",)) for cb_ in prog.bodies.values() if cb_.root == body.id)
+            if not guards and (later or in_closures):
                 # var_limit is consulted in this function, but not in a `for .. in &L.attrs` loop the rule can read (an
                 # iterator chain, a helper): no verdict on whether every attribute passes it
                 chk.undecided("A7.scope-var-limit", f"{body.short}:{name}:redispatch", body.where(eb, et.get("line")), f"var_limit is tested in {body.short}, but not in a loop over the attributes of `{name}` that the rule can read")
